@@ -1,17 +1,34 @@
-(** C10 - equal values written differently give identical bits.
-    PROVED (closed by [exact]): two splittings of one digit sequence with compensating exponents
-    denote the same rational and are folded into the SAME Number (w, q, truncated) by the first
-    stage (proofs/Glue.v, proofs/ParseFacts.v); an appended fraction zero does not change the
-    value; the oracle is a function of the rational value only ([rne_bits_iff_RN]: RN f (n/d) is
-    characterised by an integer relation on n/d).  The big-integer re-read of the digits
-    (parse_mantissa) is covered by the correspondence harness (all re-splittings x appended zeros). *)
+(** C10 - equal values written differently give identical bits.  PROVED END TO END: [C10_value_invariant] for any two valid inputs denoting the same rational; plus the stage-1 facts (re-splittings are folded into the same Number).
+    Domain and premise as in props/C01.v: [in_domain] = valid_inputb and at most 2^28 digits, every i32
+    exponent; [deep_ok] is vacuous for the compact configurations and the single residual premise for
+    the Eisel-Lemire ones (see props/C01.v).  Closed by [exact]; the model is tied to /repo by the
+    correspondence harness on every run. *)
 
-From Coq Require Import ZArith QArith List Bool.
-From ML Require Import base.RustSem model.Fmt model.Number model.Parse model.Top model.Vec model.Bigint spec.Decimal spec.Round spec.RneZ spec.RneBridge
-  gen.Consts gen.Tables gen.BTables gen.PowDump proofs.LimbVal proofs.ParseFacts proofs.Glue proofs.NoUB proofs.BigintFacts2 proofs.FastPathFacts proofs.EndToEnd proofs.TableFacts.
+From Coq Require Import ZArith QArith Qabs List Bool Reals Qreals.
+From Coq Require Import Floats.SpecFloat.
+From Flocq Require Import Core.Core.
+From ML Require Import base.RustSem model.Fmt model.Num model.Number model.Parse model.Lemire model.Bellerophon model.Top
+  spec.Decimal spec.Round spec.RoundFacts spec.DigitsSuffice gen.Consts gen.Tables gen.BTables gen.PowDump
+  proofs.ParseFacts proofs.FastPathFacts proofs.EndToEnd proofs.EndToEnd2 proofs.EndToEnd3 proofs.EndToEnd4 proofs.EndToEnd5 proofs.EndToEnd6 proofs.EndToEnd7
+  proofs.LemireFacts6 proofs.Glue.
 Import ListNotations.
 
 Open Scope Z_scope.
+
+Theorem C10_C10_value_invariant :
+  forall (c : config) (f : format) (b : build) (i1 f1 : list Z) (e1 : Z) (i2 f2 : list Z) (e2 : Z),
+         In c ALL_CONFIGS ->
+         f = F32 \/ f = F64 ->
+         in_domain i1 f1 e1 ->
+         in_domain i2 f2 e2 ->
+         deep_ok c f b i1 f1 e1 ->
+         deep_ok c f b i2 f2 e2 ->
+         dec_value i1 f1 e1 == dec_value i2 f2 e2 -> PF c f b i1 f1 e1 = PF c f b i2 f2 e2.
+Proof. exact C10_value_invariant. Qed.
+
+Theorem C10_RN_Qeq :
+  forall f : format, sfmt_ok f = true -> forall v v' : Q, (0 <= v)%Q -> v == v' -> RN f v = RN f v'.
+Proof. exact RN_Qeq. Qed.
 
 Theorem C10_resplit_number_consistent :
   forall (b1 b2 : build) (i1 f1 : list Z) (e1 : Z) (i2 f2 : list Z) (e2 : Z),
@@ -30,26 +47,9 @@ Theorem C10_appended_zero_value :
   forall (i f : list Z) (e : Z), dec_value i (f ++ [48]) e == dec_value i f e.
 Proof. exact appended_zero_value. Qed.
 
-Theorem C10_rne_bits_unique :
-  forall f : format,
-         bfmt_ok f = true ->
-         forall n d b1 b2 : Z, 0 <= n -> 0 < d -> rne_bits f n d b1 -> rne_bits f n d b2 -> b1 = b2.
-Proof. exact rne_bits_unique. Qed.
 
-Theorem C10_fast_class_value_invariant :
-  forall (c : config) (f : format) (b : build) (BT : btables) (L : limits) (i1 f1 : list Z) 
-           (e1 : Z) (i2 f2 : list Z) (e2 : Z),
-         In c ALL_CONFIGS ->
-         f = F32 \/ f = F64 ->
-         fast_class f i1 f1 e1 ->
-         fast_class f i2 f2 e2 ->
-         dec_value i1 f1 e1 == dec_value i2 f2 e2 ->
-         parse_float c TABLES BT L f b i1 f1 e1 = parse_float c TABLES BT L f b i2 f2 e2.
-Proof. exact fast_class_value_invariant. Qed.
-
-
+Print Assumptions C10_C10_value_invariant.
+Print Assumptions C10_RN_Qeq.
 Print Assumptions C10_resplit_number_consistent.
 Print Assumptions C10_resplit_value.
 Print Assumptions C10_appended_zero_value.
-Print Assumptions C10_rne_bits_unique.
-Print Assumptions C10_fast_class_value_invariant.
